@@ -105,6 +105,23 @@ def run_store(t, v, ops, lazy=False):
                     setattr(pv, 'f%d' % int(op[2]), cv)
                 else:
                     pv[int(op[2])] = cv
+            elif o == 'tmpsum':
+                # a throw-away copy of the view gets one element replaced by a SUMMARY-backed view of the same element
+                # (same root, no content below it): nothing that is held may change
+                try:
+                    pt, pv = views[int(op[1])]
+                    tmp = pv.copy()
+                    ct, cv = child_of(pt, tmp, int(op[2]))
+                    sv = type(cv).view_from_backing(RootNode(bytes(cv.get_backing().merkle_root())))
+                    if kind(pt) == 'cont':
+                        setattr(tmp, 'f%d' % int(op[2]), sv)
+                    elif kind(pt) == 'union':
+                        tmp.change(selector=tmp.selector(), value=sv)
+                    else:
+                        tmp[int(op[2])] = sv
+                    tmp.hash_tree_root()
+                except Exception:
+                    pass
             elif o == 'copy':
                 vt, vv = views[int(op[1])]
                 parent[len(views)] = None
@@ -151,4 +168,7 @@ def run_case(c):
     if k == 'virt':
         import pyimpl_partial
         return pyimpl_partial.run_virt(c[1], c[2], c[3:])
+    if k == 'virtp':
+        import pyimpl_partial
+        return pyimpl_partial.run_partial(c[1], c[2], c[3], c[4:], virtual=True)
     raise ValueError('unknown case kind ' + k)
